@@ -207,6 +207,8 @@ def child_ref(arg) -> dict:
     from oneliner.config import Configs
 
     src, model, with_text = arg["src"], arg["model"], arg.get("text", False)
+    if arg.get("reclimit"):
+        sys.setrecursionlimit(arg["reclimit"])  # what the caller of the history had set before the call
     if model is None:
         res = _outcome_of_call(lambda: oneliner.convert_code_string(src))
         return res
@@ -335,6 +337,8 @@ def child_history(desc: dict) -> dict:
     saved_states: list = []
     events = []
     flags0 = _monitor_flags()
+    caller_env = {"reclimit": None}
+    nonlocal_flags = [flags0]
     fresh_reads0 = None
     mon_tripped = False
     total_lines = 0
@@ -383,6 +387,8 @@ def child_history(desc: dict) -> dict:
             ev["prog"] = prog_id(op)
             ev["obj"] = oid
             ev["mkey"] = None if oid is None else mkey(models[oid])
+            if caller_env["reclimit"]:
+                ev["reclimit"] = caller_env["reclimit"]
             outs = {}
             first_at = {}
             for i in range(op["n"]):
@@ -403,6 +409,7 @@ def child_history(desc: dict) -> dict:
                 os.environ[op["name"]] = op["value"]
             elif what == "recursionlimit":
                 sys.setrecursionlimit(op["value"])
+                caller_env["reclimit"] = op["value"]
             return ev
         if kind == "churn":
             # create many option objects, set an option on each, drop them all: afterwards the
@@ -515,6 +522,8 @@ def child_history(desc: dict) -> dict:
             ev["prog"] = prog_id(op)
             ev["obj"] = oid
             ev["mkey"] = None if oid is None else mkey(models[oid])
+            if caller_env["reclimit"]:
+                ev["reclimit"] = caller_env["reclimit"]
             fname = op.get("filename")
             if fname is not None:
                 ev["filename"] = fname
@@ -566,7 +575,10 @@ def child_history(desc: dict) -> dict:
                     bad.append("%s.%s" % (oid, n))
         fl = _monitor_flags()
         ev["flags"] = fl
-        if fl != flags0:
+        if ev.get("op") == "env":
+            # the caller changed process state on purpose: that is the new baseline
+            nonlocal_flags[0] = fl
+        if fl != nonlocal_flags[0]:
             bad.append("flags")
         if bad:
             ev["mon"] = bad
@@ -609,11 +621,11 @@ class C10Ctx:
         self.lpset_cache: dict[str, int] = {}
         self.ref_calls = 0
 
-    def ref(self, pid: str, src: str, model_key, model) -> dict:
-        key = pid + "@" + (model_key if model_key is not None else "NONE")
+    def ref(self, pid: str, src: str, model_key, model, reclimit=None) -> dict:
+        key = pid + "@" + (model_key if model_key is not None else "NONE") + ("" if not reclimit else "@rl%d" % reclimit)
         r = self.ref_cache.get(key)
         if r is None:
-            r = fork_run(child_ref, {"src": src, "model": model})
+            r = fork_run(child_ref, {"src": src, "model": model, "reclimit": reclimit})
             self.ref_cache[key] = r
             self.ref_calls += 1
         return r
@@ -666,7 +678,8 @@ def judge(ctx: C10Ctx, desc: dict, result: dict) -> list:
             op = ops[i]
             src = src_of(op)
             mk = ev["mkey"]
-            expect = ctx.ref(ev["prog"], src, "-|-|-", {}) if mk is None else ctx.ref(ev["prog"], src, mk, model_from_key(mk))
+            expect = (ctx.ref(ev["prog"], src, "-|-|-", {}, ev.get("reclimit")) if mk is None
+                      else ctx.ref(ev["prog"], src, mk, model_from_key(mk), ev.get("reclimit")))
             for r in ev["burst"]:
                 if expect.get("out") == "unreachable-model":
                     break
@@ -683,11 +696,12 @@ def judge(ctx: C10Ctx, desc: dict, result: dict) -> list:
         src = src_of(op)
         pid = ev["prog"]
         mk = ev["mkey"]
+        rl = ev.get("reclimit")
         if mk is None:
             # no options passed: must equal the call with an untouched option object
-            expect = ctx.ref(pid, src, "-|-|-", {})
+            expect = ctx.ref(pid, src, "-|-|-", {}, rl)
         else:
-            expect = ctx.ref(pid, src, mk, model_from_key(mk))
+            expect = ctx.ref(pid, src, mk, model_from_key(mk), rl)
         if expect.get("out") == "unreachable-model":
             continue
         if ev.get("filename") is not None and ev.get("out") == "exc" and expect.get("out") == "exc" \
@@ -868,7 +882,9 @@ def gen_history(seed: int, ctx: C10Ctx, knobs: dict | None = None) -> dict:
             continue
         if not last and rng.random() < env_rate:
             k = rng.random()
-            if k < 0.3:
+            if k < 0.2:
+                ops.append({"op": "env", "what": "recursionlimit", "value": rng.choice([3000, 5000, 1000])})
+            elif k < 0.35:
                 ops.append({"op": "env", "what": "chdir", "value": rng.choice(["/", "/usr", "/tmp"])})
             elif k < 0.6:
                 ops.append({"op": "env", "what": "argv", "value": rng.choice([["prog"], ["oneliner", "-Cunparser=oneliner", "x.py"], []])})
